@@ -298,3 +298,42 @@ silent('C11', 'buffer-can-put-early-test-dropped',
        lambda p: M.replace_node(p, E_BUF, 'Buffer.can_put', lambda n: isinstance(n, ast.If), 'pass'))
 silent('C11', 'fleet-can-get-single-expression',
        lambda p: M.replace_node(p, E_FLT, 'Fleet.can_get', lambda n: isinstance(n, ast.If), 'pass'))
+
+# ============================================================================================ C02
+OLD_IDX = 'insert_idx = len(self.ready_items) - len(self.reserved_events) - 1'
+fire('C02', 'buffer-cancel-old-index (defect D1 re-introduced)', 'C02.R3', 'BufferStore.reserve_get_cancel::reinsert[FIFO]',
+     lambda p: M.replace_node(p, S_BUF, 'BufferStore.reserve_get_cancel', M.assign_to('insert_idx'), OLD_IDX, which=0))
+fire('C02', 'fleet-cancel-old-index (defect D1 re-introduced)', 'C02.R3', 'FleetStore.reserve_get_cancel::reinsert[FIFO]',
+     lambda p: M.replace_node(p, S_FLT, 'FleetStore.reserve_get_cancel', M.assign_to('insert_idx'), OLD_IDX))
+fire('C02', 'belt-cancel-append-at-end', 'C02.R3', 'BeltStore.reserve_get_cancel::reinsert[FIFO]',
+     lambda p: M.replace_node(p, S_BELT, 'BeltStore.reserve_get_cancel', M.assign_to('insert_idx'), 'insert_idx = len(self.ready_items)'))
+fire('C02', 'prs-cancel-off-by-one', 'C02.R3', 'ReservablePriorityReqStore.reserve_get_cancel::reinsert',
+     lambda p: M.replace_node(p, S_PRS, 'ReservablePriorityReqStore.reserve_get_cancel', M.stmt_calling('self.items.insert'), sub('delta_position-1', 'delta_position')))
+fire('C02', 'buffer-binder-off-by-one', 'C02.R3', 'BufferStore._do_reserve_get::binder',
+     lambda p: M.replace_node(p, S_BUF, 'BufferStore._do_reserve_get', M.assign_to('item'), 'item = self.ready_items[j + 1]', which=0))
+fire('C02', 'fleet-arrival-at-front', 'C02.R3', 'FleetStore.move_to_ready_items',
+     lambda p: M.replace_node(p, S_FLT, 'FleetStore.move_to_ready_items', M.stmt_calling('self.ready_items.append'), 'self.ready_items.insert(0, item_to_put)'))
+fire('C02', 'rs-get-pops-head', 'C02.R', 'ReservableReqStore.get',
+     lambda p: M.replace_node(p, S_RS, 'ReservableReqStore._do_get', M.assign_to('assigned_item'), 'assigned_item = self.items.pop(0)'))
+fire('C02', 'buffer-get-wrong-parallel-index', 'C02.R3', 'BufferStore.get',
+     lambda p: M.replace_node(p, S_BUF, 'BufferStore._do_get', M.assign_to('assigned_item'), 'assigned_item = self.reserved_items.pop(0)'))
+fire('C02', 'buffer-get-keeps-item', 'C02.R1', 'BufferStore.get',
+     lambda p: M.delete_stmt(p, S_BUF, 'BufferStore._do_get', M.stmt_calling('self.ready_items.remove')))
+fire('C02', 'fleet-move-duplicates-item', 'C02.R1', 'FleetStore.move_to_ready_items',
+     lambda p: M.replace_node(p, S_FLT, 'FleetStore.move_to_ready_items', M.assign_to('item_to_put'), 'item_to_put = self.items[item_index]'))
+fire('C02', 'buffer-move-appends-wrapper', 'C02.R', 'Buffer',
+     lambda p: M.replace_node(p, S_BUF, 'BufferStore.move_to_ready_items', M.stmt_calling('self.ready_items.append'), 'self.ready_items.append(item_to_put)'))
+fire('C02', 'fleet-edge-wraps-item', 'C02.R2', 'Fleet.put',
+     lambda p: M.replace_node(p, E_FLT, 'Fleet.put', M.is_call('self.inbuiltstore.put'), 'self.inbuiltstore.put(event, (item, delay))'))
+fire('C02', 'buffer-edge-get-returns-other', 'C02.R2', 'Buffer.get',
+     lambda p: M.replace_node(p, E_BUF, 'Buffer.get', lambda n: isinstance(n, ast.Return), 'return event'))
+fire('C02', 'prs-grant-not-strict', 'C02.R4', 'ReservablePriorityReqStore',
+     lambda p: M.replace_node(p, S_PRS, 'ReservablePriorityReqStore._do_reserve_get', M.compare_containing('reservations_get'), sub('<', '<=')))
+fire('C02', 'buffer-cancel-keeps-reserved-item', 'C02.R4', 'BufferStore.reserve_get_cancel',
+     lambda p: M.replace_node(p, S_BUF, 'BufferStore.reserve_get_cancel', M.assign_to('item'), 'item = self.reserved_items[ev_idx]'))
+silent('C02', 'buffer-cancel-index-rewritten',
+       lambda p: M.replace_node(p, S_BUF, 'BufferStore.reserve_get_cancel', M.assign_to('insert_idx'),
+                                'insert_idx = len(self.reservations_get) + len(self.reserved_events) - len(self.reservations_get)', which=0))
+silent('C02', 'prs-cancel-locals-renamed',
+       lambda p: M.replace_node(p, S_PRS, 'ReservablePriorityReqStore.reserve_get_cancel', M.if_testing('get_event_to_cancel in self.reserve_get_queue'),
+                                lambda s: s.replace('item_to_shift', 'moved').replace('delta_position', 'n_reserved')))
